@@ -50,14 +50,18 @@ def run(check, tier):
             jobs.append(dict(fn="skips_zip", fixed=dict(s1=s1, t1=rnd.randrange(NONE_T + 1), maxlen=0,
                                                         l1_in=sorted(rnd.sample(allN, 3))), timeout=t, key="skips_zip"))
     else:
+        # two names skipped at save time and at load time, three skip spellings, symbolic one-character payloads; the load-name
+        # and type selectors are pinned to seeded subsets per job (all of them free: > 17 CPU-minutes per job, 99 jobs)
         for part in (1, 2, 3):
             for s1 in allN:
                 for s2 in sorted(rnd.sample(allN, 3)):
                     form = rnd.randrange(3)
                     jobs.append(dict(fn="skips", fixed=dict(part=part, s1=s1, s2=s2, l2=rnd.randrange(NONE_N + 1), form=form,
-                                                            nofloat=1, maxlen=1),
-                                     timeout=3000, key=f"skips:part={part}"))
+                                                            nofloat=1, maxlen=1, l1_in=sorted(rnd.sample(allN, 5)),
+                                                            t1_in=sorted(rnd.sample(range(NONE_T), 3)) + [NONE_T]),
+                                     timeout=t, key=f"skips:part={part}"))
         for s1 in allN:
             for t1 in range(NONE_T + 1):
-                jobs.append(dict(fn="skips_zip", fixed=dict(s1=s1, t1=t1, maxlen=1), timeout=3000, key="skips_zip"))
+                jobs.append(dict(fn="skips_zip", fixed=dict(s1=s1, t1=t1, maxlen=1, l1_in=sorted(rnd.sample(allN, 5))), timeout=t,
+                                 key="skips_zip"))
     run_jobs(check, FILE, jobs)
